@@ -181,6 +181,48 @@ Fixpoint sd_run (d : sdict) (ops : list sd_op) : list sd_out :=
   | o :: r => let '(d1, out) := sd_step d o in out :: sd_run d1 r
   end.
 
+(* Several ScopedDict objects alive at once: a forest of scopes, each with an optional
+   parent (index of an OLDER scope).  Every lookup on scope i is the chain lookup above
+   on the list of scopes from i up to its root. *)
+Definition sforest := list (option nat * scope).
+Fixpoint chain (fuel : nat) (t : sforest) (i : nat) : sdict :=
+  match fuel with
+  | O => []
+  | S f =>
+      match nth_error t i with
+      | None => []
+      | Some (par, sc) => sc :: match par with Some p => chain f t p | None => [] end
+      end
+  end.
+Definition chain_of (t : sforest) (i : nat) : sdict := chain (length t) t i.
+Fixpoint fset_scope (t : sforest) (i : nat) (k : nat) (v : pyval) : sforest :=
+  match t, i with
+  | [], _ => []
+  | (par, sc) :: r, O => (par, (k, v) :: sc) :: r
+  | x :: r, S i' => x :: fset_scope r i' k v
+  end.
+Inductive sf_op :=
+| FNew (parent : nat)                       (* ScopedDict(parent=scopes[parent]) *)
+| FSet (s k : nat) (v : pyval) | FGet (s k : nat) (d : pyval)
+| FGetItem (s k : nat) | FContains (s k : nat).
+(* scope indices out of range are clamped to the newest scope by the harness AND here *)
+Definition clampi (t : sforest) (i : nat) : nat := Nat.min i (length t - 1).
+Definition sf_step (t : sforest) (o : sf_op) : sforest * sd_out :=
+  match o with
+  | FNew p => (t ++ [(Some (clampi t p), [])], SNone)
+  | FSet s k v => (fset_scope t (clampi t s) k v, SNone)
+  | FGet s k df => (t, SVal (sd_get (chain_of t (clampi t s)) k df))
+  | FGetItem s k => (t, match sd_getitem (chain_of t (clampi t s)) k with
+                        | Some v => SVal v | None => SKeyError end)
+  | FContains s k => (t, SBool (sd_contains (chain_of t (clampi t s)) k))
+  end.
+Fixpoint sf_run (t : sforest) (ops : list sf_op) : list sd_out :=
+  match ops with
+  | [] => []
+  | o :: r => let '(t1, out) := sf_step t o in out :: sf_run t1 r
+  end.
+Definition sf_init : sforest := [(None, [])].
+
 (* Specification: value bound in the innermost scope that defines the key. *)
 Fixpoint innermost (d : sdict) (k : nat) : option pyval :=
   match d with
